@@ -397,7 +397,8 @@ class World(object):
                     return R(n=xtuml.check_association_integrity(self.m))
                 return R(n=xtuml.check_association_integrity(self.m, int(rel[1:]) if k % 2 else rel))
             if kind == 'chk_id':
-                return R(n=xtuml.check_uniqueness_constraint(self.m, self.cname(o['c']) if o['c'] else None))
+                # (key letters are case-insensitive: the restriction names the class under a rotating spelling)
+                return R(n=xtuml.check_uniqueness_constraint(self.m, spell(o['c'], k) if o['c'] else None))
             if kind == 'consistent':
                 return R(b=bool(self.m.is_consistent()))
             if kind == 'cli':
@@ -432,8 +433,8 @@ class World(object):
             args = []
             for r in o['rels']:
                 args += ['-r', r[1:]]
-            for c in o['kinds']:
-                args += ['-k', self.cname(c)]
+            for j, c in enumerate(o['kinds']):
+                args += ['-k', spell(c, len(o['rels']) + j)]
             logging.disable(logging.CRITICAL)
             try:
                 n = cc.main(args + [p])
